@@ -1,4 +1,5 @@
 import MuduoVerif.Proofs.LoopExit
+import MuduoVerif.Proofs.LoopSkelTie
 /-!
 # C04 — tasks given to a loop run exactly once, in order, on its thread, without delay
 
@@ -13,9 +14,16 @@ handler; task bodies submit again, so nesting is unbounded; submissions before `
 only when the eventfd counter is positive or the pipe is readable, so "never waits for the poll timeout" is the
 safety property "never asleep in `poll` with work queued and nobody about to write the eventfd".
 
-The wake condition of `queueInLoop`, the inline test of `runInLoop`, the swap in `doPendingFunctors`, the final
-drain and the statement order of `loop()` are definitions of `Generated/Loop.lean`, re-extracted from /repo on
-every run; the `tie_*` theorems pin them to what the property text relies on.
+Functors are objects: what a functor owns dies with it, on the loop thread, and that destructor is user code which may
+submit again (`dtbl t` = what the destruction of task `t`'s functor object does).  The functor objects of a batch die
+after the whole batch has run, in vector order, **before `callingPendingFunctors_` is reset** (`functors.clear()`;
+extracted as `batchDestroyedBeforeReset`); the functor given to an inline `runInLoop` dies when the call returns.  Every
+theorem below is about this extended system, so "a functor", "another functor" in the property text include whatever
+runs because a functor object dies.
+
+The wake condition of `queueInLoop`, the inline test of `runInLoop`, the swap in `doPendingFunctors`, the place where
+the batch is destroyed, the final drain and the statement order of `loop()` are definitions of `Generated/Loop.lean`,
+re-extracted from /repo on every run; the `tie_*` theorems pin them to what the property text relies on.
 -/
 namespace MuduoVerif.C04
 open MuduoVerif.Loop MuduoVerif.Gen.Loop
@@ -31,15 +39,16 @@ theorem tie_guards (isLoopThread calling looping : Bool) :
   cases isLoopThread <;> cases calling <;> cases looping <;> simp
 
 /-- the statement order the model takes for granted: append under the lock before the wake-up test; the batch is
-swapped out (queue left empty) under the lock with `callingPendingFunctors_` set before and cleared after the run;
+swapped out (queue left empty) under the lock with `callingPendingFunctors_` set before and cleared after the run —
+and after the functor objects of the batch have been destroyed (`functors.clear()` precedes the reset);
 every iteration ends with a drain; after the `while` the queue is drained **until it is empty**
 (`do { doPendingFunctors(); } while (queueSize() > 0);`); `looping_` brackets the `while`; `wakeup()` writes a whole
 non-zero counter value to the eventfd and `handleRead()` reads it back -/
 theorem tie_shape :
     appendUnderLock = true ∧ drainSwaps = true ∧ callingSetBeforeSwap = true ∧ callingResetAfterRun = true ∧
-    drainEachIteration = true ∧ finalDrain = .untilEmpty ∧ loopingBracket = true ∧
+    batchDestroyedBeforeReset = true ∧ drainEachIteration = true ∧ finalDrain = .untilEmpty ∧ loopingBracket = true ∧
     wakeupWritesOne = true ∧ handleReadDrains = true :=
-  ⟨shape_tie.2.2.2, drainSwaps_tie, shape_tie.2.2.1, callingResetAfterRun_tie, shape_tie.1, finalDrain_tie, shape_tie.2.1,
+  ⟨shape_tie.2.2.2, drainSwaps_tie, shape_tie.2.2.1, callingResetAfterRun_tie, batchDestroyedBeforeReset_tie, shape_tie.1, finalDrain_tie, shape_tie.2.1,
    eventfd_tie.1, eventfd_tie.2⟩
 
 /-! ## exactly once, in submission order, on the loop thread -/
@@ -62,8 +71,8 @@ theorem drain_takes_oldest (s : St) (h : Reachable s) (t : TaskId) (r : List Tas
     (stepLoop s).out = some (.exec t) ∧ (stepLoop s).executed = s.executed ++ [t] ∧
     s.appendOrder[s.executed.length]? = some t := by
   refine ⟨?_, ?_, ?_⟩
-  · unfold stepLoop stepLoopFD; simp [hp, hb, hbatch]
-  · unfold stepLoop stepLoopFD; simp [hp, hb, hbatch]
+  · unfold stepLoop stepLoopFD stepLoopG; simp [hp, hb, hbatch]
+  · unfold stepLoop stepLoopFD stepLoopG; simp [hp, hb, hbatch]
   · rw [once_fifo s h, hbatch]; simp
 
 /-- a batch is taken only by the swap and holds exactly what was queued at that moment; outside a drain there is
@@ -92,13 +101,14 @@ theorem nested_queue_appends_last (s : St) (x : TaskId) (r : List Sub) (rest : L
 
 /-- task bodies start on the loop thread only -/
 theorem only_on_loop_thread (s : St) (h : Reachable s) : s.wrongThread = false :=
-  reachable_invariant (P := fun s => s.wrongThread = false) (fun _ _ _ _ _ => rfl) (fun _ k h => step_wrongThread k h) h
+  reachable_invariant (P := fun s => s.wrongThread = false) (fun _ _ _ _ _ _ => rfl) (fun _ k h => step_wrongThread k h) h
 
 /-- **inline_first**: `runInLoop` called on the loop thread (from a functor, an I/O handler, before `loop()`) starts
-the task inside the call — it is the very next action, ahead of everything queued, and the queue is not touched -/
+the task inside the call — it is the very next action, ahead of everything queued, and the queue is not touched; the
+functor object dies when the task body has ended, before the caller goes on (`bury x`) -/
 theorem inline_first (s : St) (x : TaskId) (r : List Sub) (rest : List (List Sub))
     (hl : s.lpc = .idle) (hs : s.stack = (.run x :: r) :: rest) :
-    (runTop s).out = some (.exec x) ∧ (runTop s).stack = s.tbl x :: r :: rest ∧
+    (runTop s).out = some (.exec x) ∧ (runTop s).stack = s.tbl x :: (.bury x :: r) :: rest ∧
     (runTop s).pending = s.pending ∧ (runTop s).appendOrder = s.appendOrder ∧ (runTop s).executed = s.executed := by
   have := runInline_loop
   unfold runTop; simp [hl, hs, this]
@@ -146,43 +156,132 @@ theorem asleep_means_queue_empty (s : St) (h : Reachable s) (hp : s.phase = .pol
     obtain ⟨k, hk⟩ := prompt s h hp (by simp [hq])
     simp [hs k] at hk
 
+/-! ## functor objects die on the loop thread, inside the drain, with the flag still set -/
+
+/-- no run functor object outlives the drain that ran it: outside `doPendingFunctors` the local vector holds none, and
+the destruction starts only when the whole batch has run -/
+theorem functors_die_inside_drain (s : St) (h : Reachable s) :
+    (s.phase ≠ .draining → s.corpses = [] ∧ s.burying = false) ∧ (s.burying = true → s.batch = []) := by
+  have hb := reachable_invariant (P := BuryInv) init_bury (fun _ k h => step_bury k h) h
+  exact ⟨hb.outside, hb.batchDone⟩
+
+/-- when the `for` over the batch is over, the functor objects die in vector order; each destructor body starts as a
+visible action of the loop thread (`dtor c`) and then runs like a task body — with `callingPendingFunctors_` **unchanged**
+(the reset comes after the last of them) -/
+theorem batch_destroyed_in_order (s : St) (c : TaskId) (cr : List TaskId) (hp : s.phase = .draining)
+    (hb : busy s = false) (hbatch : s.batch = []) (hc : s.corpses = c :: cr) :
+    (stepLoop s).out = some (.dtor c) ∧ (stepLoop s).stack = [s.dtbl c] ∧ (stepLoop s).corpses = cr ∧
+    (stepLoop s).burying = true ∧ (stepLoop s).calling = s.calling ∧ (stepLoop s).phase = .draining ∧
+    (stepLoop s).pending = s.pending ∧ (stepLoop s).executed = s.executed := by
+  have := batchDestroyedBeforeReset_tie
+  unfold stepLoop stepLoopFD stepLoopG; simp [hp, hb, hbatch, hc, this]
+
+/-- while destructor bodies of the batch run, the loop thread is inside `doPendingFunctors` with
+`callingPendingFunctors_` set -/
+theorem calling_while_functors_die (s : St) (h : Reachable s) (hb : s.burying = true) :
+    s.phase = .draining ∧ s.calling = true := by
+  have hbi := reachable_invariant (P := BuryInv) init_bury (fun _ k h => step_bury k h) h
+  have hw := reachable_invariant (P := WakeInv) init_wake (fun _ k h => step_wake k h) h
+  have hp : s.phase = .draining := by
+    apply Classical.byContradiction
+    intro hn
+    have := (hbi.outside hn).2
+    simp [hb] at this
+  exact ⟨hp, hw.callingDrain (Or.inl hp)⟩
+
+/-- **dtor_queue_is_woken**: a functor queued by the destructor of what a functor of the batch owned — directly, or by a
+task that destructor ran inline — is followed by a wake-up like a functor queued from a functor body: the step after
+the append writes the eventfd, so the `poll` of the next iteration returns at once (`no_lost_wakeup`, `prompt` and
+`queued_is_woken` cover the states in between: they are statements about every reachable state of this system) -/
+theorem dtor_queue_is_woken (s : St) (h : Reachable s) (hb : s.burying = true) (hl : s.lpc = .appended) :
+    (stepLoop s).out = some .wakeup ∧ 0 < (stepLoop s).ev ∧ (stepLoop s).lpc = .idle ∧
+    (stepLoop s).pending = s.pending := by
+  obtain ⟨hp, hc⟩ := calling_while_functors_die s h hb
+  have hg := wakeGuard_calling true s.looping
+  have hbusy : busy s = true := by simp [busy, hl]
+  unfold stepLoop stepLoopFD stepLoopG
+  simp only [hp, hbusy, if_true]
+  unfold runTop
+  simp [hl, hc, hg]
+
+/-- the same for the functor handed to an inline `runInLoop`: when the call returns the object dies (`bury x`), its
+destructor body starts at once on the loop thread, in the context of the caller -/
+theorem inline_functor_dies_on_return (s : St) (x : TaskId) (r : List Sub) (rest : List (List Sub))
+    (hl : s.lpc = .idle) (hs : s.stack = (.bury x :: r) :: rest) (hd : s.dtbl x ≠ []) :
+    (runTop s).out = some (.dtor x) ∧ (runTop s).stack = s.dtbl x :: r :: rest ∧ (runTop s).calling = s.calling ∧
+    (runTop s).pending = s.pending ∧ (runTop s).executed = s.executed := by
+  have hne : (s.dtbl x).isEmpty = false := by cases hdx : s.dtbl x <;> simp_all
+  unfold runTop; simp [hl, hs, hne]
+
+/-- **negation witness for the earlier order** (`callingPendingFunctors_ = false` before the local vector dies, as
+before the `functors.clear()` was added): the owner queues task 1 before `loop()`; the functor object of task 1 owns
+something whose destructor queues task 2.  With the flag reset first, that `queueInLoop` runs on the loop thread, inside
+`loop()`, outside "calling": no wake-up — the loop goes back to `poll` with task 2 queued, the eventfd not readable and
+**no thread able to move** (in the real code: until an unrelated event or the 10 s poll timeout).  The code as it is
+writes the eventfd and runs both. -/
+theorem batch_destroyed_after_reset_strands_witness :
+    let i := init false false (fun _ => []) (fun t => if t = 1 then [.queue 2] else []) [.queue 1] (fun _ => [])
+    let sched := List.replicate 30 0
+    ((runBD false i sched).phase = .polling ∧ (runBD false i sched).pending = [2] ∧
+      (runBD false i sched).executed = [1] ∧ (runBD false i sched).ev = 0 ∧
+      ∀ k, enabled (runBD false i sched) k = false) ∧
+    ((run i sched).phase = .polling ∧ (run i sched).pending = [] ∧ (run i sched).executed = [1, 2]) := by
+  intro i sched
+  have key : ((runBD false i sched).phase = .polling ∧ (runBD false i sched).pending = [2] ∧
+      (runBD false i sched).executed = [1] ∧ (runBD false i sched).ev = 0 ∧
+      loopEnabled (runBD false i sched) = false) ∧
+      ((run i sched).phase = .polling ∧ (run i sched).pending = [] ∧ (run i sched).executed = [1, 2]) := by
+    decide +kernel
+  obtain ⟨⟨k1, k2, k3, k4, k5⟩, k6⟩ := key
+  refine ⟨⟨k1, k2, k3, k4, ?_⟩, k6⟩
+  have h1 : (runBD false i sched).thr = i.thr := (runBD_owner_only false i 30 rfl).1
+  have hthr : ∀ k, (runBD false i sched).thr k = { pc := .idle, prog := [] } := fun k => by rw [h1]; rfl
+  generalize runBD false i sched = s' at *
+  intro k
+  unfold enabled
+  split
+  · exact k5
+  · simp [otherEnabled, hthr k]
+
 /-! ## as long as the loop keeps running — and when it stops -/
 
 /-- after the `while`, the drain is repeated as long as anything is queued: at the end of a pass of the final drain
 with a non-empty queue the loop thread does not return but starts another pass (`callingPendingFunctors_` set again) -/
 theorem final_drain_repeats (s : St) (hp : s.phase = .draining) (hf : s.final = true) (hb : busy s = false)
-    (hbatch : s.batch = []) (hq : s.pending ≠ []) :
+    (hbatch : s.batch = []) (hc : s.corpses = []) (hq : s.pending ≠ []) :
     (stepLoop s).phase = .preSwap ∧ (stepLoop s).final = true ∧ (stepLoop s).calling = true ∧
     (stepLoop s).pending = s.pending ∧ (stepLoop s).out = some (.point "doPendingFunctors:beforeSwap") := by
   have := finalDrain_tie
   have hne : s.pending.isEmpty = false := by cases hpd : s.pending <;> simp_all
-  unfold stepLoop stepLoopFD; simp [hp, hf, hb, hbatch, this, hne]
+  unfold stepLoop stepLoopFD stepLoopG; simp [hp, hf, hb, hbatch, hc, this, hne]
 
-/-- `loop()` returns only at a test that finds the queue empty, and `retMark` records how many functors had been
+/-- `loop()` returns only at a test that finds the queue empty — after the batch has run and its functor objects have
+been destroyed (what their destructors queued is seen by that test) — and `retMark` records how many functors had been
 appended at that test -/
 theorem returns_only_with_empty_queue (s : St) (hp : s.phase = .draining) (hr : (stepLoop s).phase = .returned) :
-    s.pending = [] ∧ s.batch = [] ∧ (stepLoop s).retMark = some s.appendOrder.length := by
+    s.pending = [] ∧ s.batch = [] ∧ s.corpses = [] ∧ (stepLoop s).retMark = some s.appendOrder.length := by
   have := finalDrain_tie
+  have hrt : (runTop s).phase = s.phase := by
+    unfold runTop; repeat' split
+    all_goals rfl
   revert hr
-  unfold stepLoop stepLoopFD
+  unfold stepLoop stepLoopFD stepLoopG
   simp only [hp]
   split
-  · intro hr
-    have : (runTop s).phase = s.phase := by unfold runTop; repeat' split
-                                            all_goals rfl
-    rw [this, hp] at hr; cases hr
+  · intro hr; rw [hrt, hp] at hr; cases hr
   · split
     · intro hr; simp at hr
     · split
-      · split
-        · intro hr; simp at hr
-        · rename_i hbt hfin hne
-          intro _
-          refine ⟨?_, hbt, by simp [leaveLoop]⟩
-          cases hpd : s.pending with
-          | nil => rfl
-          | cons a l => simp_all
       · intro hr; simp at hr
+      · split
+        · split
+          · intro hr; simp at hr
+          · intro _
+            refine ⟨?_, by assumption, by assumption, by simp [leaveLoop]⟩
+            cases hpd : s.pending with
+            | nil => rfl
+            | cons a l => simp_all
+        · intro hr; simp at hr
 
 /-- **drain_on_exit**: when `loop()` has returned, **every functor that was appended before it returned** — by the
 loop thread itself (a functor run by the final drain that queues another one), by a foreign thread, before or after
@@ -194,7 +293,7 @@ theorem drain_on_exit (s : St) (h : Reachable s) (hp : s.phase = .returned ∨ s
     ∃ m n, s.retMark = some m ∧ s.quitMark = some n ∧ n ≤ m ∧
       s.executed = s.appendOrder.take m ∧ s.pending = s.appendOrder.drop m ∧ s.batch = [] := by
   have hx := reachable_invariant (P := fun s => FifoInv s ∧ ExitInv s)
-    (fun a b c d e => ⟨init_fifo a b c d e, init_exit a b c d e⟩) (fun _ k h => step_exit k h) h
+    (fun a b c d e f => ⟨init_fifo a b c d e f, init_exit a b c d e f⟩) (fun _ k h => step_exit k h) h
   have hex : exited s.phase = true := by rcases hp with h | h <;> simp [h, exited]
   obtain ⟨n, hn, hle⟩ := hx.2.done hex
   have hb : s.batch = [] := hx.1.batchNil (by rcases hp with h | h <;> simp [h])
@@ -206,7 +305,7 @@ theorem drain_on_exit (s : St) (h : Reachable s) (hp : s.phase = .returned ∨ s
 6f04cfe): the owner queues task 1 and calls `quit()` before `loop()`; task 1, run by the final drain, queues task 2.
 With a single final drain `loop()` returns with task 2 queued and never run; the code as it is runs both. -/
 theorem drain_once_strands_witness :
-    let i := init false false (fun t => if t = 1 then [.queue 2] else []) [.queue 1, .quit] (fun _ => [])
+    let i := init false false (fun t => if t = 1 then [.queue 2] else []) (fun _ => []) [.queue 1, .quit] (fun _ => [])
     let sched := List.replicate 24 0
     ((runFD .once i sched).phase = .returned ∧ (runFD .once i sched).pending = [2] ∧
       (runFD .once i sched).executed = [1]) ∧
@@ -216,7 +315,7 @@ theorem drain_once_strands_witness :
 /-- … and for the shape before 8a53a2a (no drain after the `while`): a functor queued behind the iteration's swap
 and followed by `quit()` is never run -/
 theorem drain_none_strands_witness :
-    let i := init false false (fun _ => []) [.queue 1, .quit] (fun _ => [])
+    let i := init false false (fun _ => []) (fun _ => []) [.queue 1, .quit] (fun _ => [])
     let sched := List.replicate 12 0
     ((runFD .none i sched).phase = .returned ∧ (runFD .none i sched).pending = [1]) ∧
     ((run i sched).phase = .returned ∧ (run i sched).pending = [] ∧ (run i sched).executed = [1]) := by
@@ -228,7 +327,7 @@ that always queues itself again keeps `loop()` from returning after `quit()` —
 file and of C05 about `loop()` *returning* is therefore a statement about states (`phase = returned`), not a
 promise that such a state is reached; it is reached whenever the functors eventually stop queueing. -/
 theorem requeue_forever_never_returns_witness :
-    let s := run (init false false (fun t => if t = 1 then [.queue 1] else []) [.queue 1, .quit] (fun _ => []))
+    let s := run (init false false (fun t => if t = 1 then [.queue 1] else []) (fun _ => []) [.queue 1, .quit] (fun _ => []))
                  (List.replicate 200 0)
     s.final = true ∧ s.phase ≠ .returned ∧ s.qreq = true ∧ 20 ≤ s.executed.length := by
   decide +kernel
@@ -239,7 +338,7 @@ theorem requeue_forever_never_returns_witness :
 a foreign thread queues task 2 and then quits; under this schedule all three run, in submission order, and
 `loop()` returns -/
 example :
-    let s := run (init false false (fun t => if t = 1 then [.queue 3] else []) [.queue 1]
+    let s := run (init false false (fun t => if t = 1 then [.queue 3] else []) (fun _ => []) [.queue 1]
                     (fun k => if k = 1 then [.queue 2, .quit] else []))
                  [0, 0, 0, 0, 1, 1, 0, 0, 0, 0, 0, 0, 0, 0, 0, 0, 0, 0, 0, 0, 0, 0, 0, 1, 1, 0, 0, 0, 0, 0, 0, 0, 0]
     s.executed = [1, 2, 3] ∧ s.appendOrder = [1, 2, 3] ∧ s.phase = .returned ∧ s.pending = [] := by
@@ -248,8 +347,88 @@ example :
 /-- the hypotheses of `no_lost_wakeup` are satisfiable: the loop in `poll`, a functor queued by a foreign thread
 that has not written the eventfd yet -/
 example :
-    let s := run (init false false (fun _ => []) [] (fun k => if k = 1 then [.queue 7] else [])) [0, 0, 1]
+    let s := run (init false false (fun _ => []) (fun _ => []) [] (fun k => if k = 1 then [.queue 7] else [])) [0, 0, 1]
     s.phase = .polling ∧ s.pending = [7] ∧ s.ev = 0 ∧ (s.thr 1).pc = .appended := by
   decide
+
+/-- the hypotheses of `dtor_queue_is_woken` are satisfiable: the functor object of task 1 owns something whose
+destructor queues task 2; after the batch has run it dies, the append is made with `callingPendingFunctors_` set and the
+next step of the loop thread writes the eventfd; in the end both tasks have run -/
+example :
+    let i := init false false (fun _ => []) (fun t => if t = 1 then [.queue 2] else []) [.queue 1] (fun _ => [])
+    let s := run i (List.replicate 13 0)
+    s.burying = true ∧ s.lpc = .appended ∧ s.phase = .draining ∧ s.calling = true ∧ s.pending = [2] ∧ s.ev = 0 ∧
+    (stepLoop s).out = some .wakeup ∧ (run i (List.replicate 30 0)).executed = [1, 2] := by
+  decide +kernel
+
+/-! ## T1: the statement order of `EventLoop.cc` -/
+
+/-- **loop_statement_order_tied** (T1, statement order).  Every function defined in /repo's current `EventLoop.cc`
+(`createEventfd` apart: `C09.loop_descriptors_nonblocking`) has the statement skeleton the steps of `Model/Loop.lean`
+assume (`Model/LoopSkelDecl.lean`; re-extracted on every run by `vlib/gen/loopskel.py` into `Generated/LoopSkel.lean`,
+proved equal in `Proofs/LoopSkelTie.lean`), and the orders this property rests on hold of the EXTRACTED skeletons:
+(a) `queueInLoop` appends inside the critical section and calls `wakeup()` after the append and after the mutex is
+released (`doAppend`, then `stepAppended`: no lost wake-up); (b) `quit` stores the flag before `wakeup()`; (c)
+`doPendingFunctors` sets `callingPendingFunctors_` before the swap, swaps inside the critical section, calls the functors
+outside it, destroys the batch (`functors.clear()`) after the calls, also outside it, and resets the flag only after
+that, as its last statement; (d) one iteration of `loop()` is poll -> handle the events ->
+`doPendingFunctors()`, the final drain `do doPendingFunctors(); while (queueSize() > 0)` follows the `while`;
+`runInLoop` calls the functor inline exactly on the loop thread, `queueInLoop` otherwise.  (`Proofs/LoopSkelTie.lean` has
+more readings - `queueSize` under the mutex, one 8-byte write / read of the eventfd in `wakeup` / `handleRead`, the shape
+flags of `Generated/Loop.lean` agree with the skeletons, each excluded order is rejected by the reading predicates; it is
+imported here, so all of them are checked whenever this module is.) -/
+theorem loop_statement_order_tied :
+    (Gen.LoopSkel.ignoreSigPipeCtor = LoopSkel.Decl.ignoreSigPipeCtor ∧
+     Gen.LoopSkel.getEventLoopOfCurrentThread = LoopSkel.Decl.getEventLoopOfCurrentThread ∧
+     Gen.LoopSkel.loopCtor = LoopSkel.Decl.loopCtor ∧
+     Gen.LoopSkel.loopDtor = LoopSkel.Decl.loopDtor ∧
+     Gen.LoopSkel.loopFn = LoopSkel.Decl.loopFn ∧
+     Gen.LoopSkel.quit = LoopSkel.Decl.quit ∧
+     Gen.LoopSkel.runInLoop = LoopSkel.Decl.runInLoop ∧
+     Gen.LoopSkel.queueInLoop = LoopSkel.Decl.queueInLoop ∧
+     Gen.LoopSkel.queueSize = LoopSkel.Decl.queueSize ∧
+     Gen.LoopSkel.runAt = LoopSkel.Decl.runAt ∧
+     Gen.LoopSkel.runAfter = LoopSkel.Decl.runAfter ∧
+     Gen.LoopSkel.runEvery = LoopSkel.Decl.runEvery ∧
+     Gen.LoopSkel.cancel = LoopSkel.Decl.cancel ∧
+     Gen.LoopSkel.updateChannel = LoopSkel.Decl.updateChannel ∧
+     Gen.LoopSkel.removeChannel = LoopSkel.Decl.removeChannel ∧
+     Gen.LoopSkel.hasChannel = LoopSkel.Decl.hasChannel ∧
+     Gen.LoopSkel.abortNotInLoopThread = LoopSkel.Decl.abortNotInLoopThread ∧
+     Gen.LoopSkel.wakeup = LoopSkel.Decl.wakeup ∧
+     Gen.LoopSkel.handleRead = LoopSkel.Decl.handleRead ∧
+     Gen.LoopSkel.doPendingFunctors = LoopSkel.Decl.doPendingFunctors ∧
+     Gen.LoopSkel.printActiveChannels = LoopSkel.Decl.printActiveChannels) ∧
+    -- (a)
+    (LoopSkel.insideLock "mutex_" (.call "pendingFunctors_.push_back" "cb") (LoopSkel.flat Gen.LoopSkel.queueInLoop) = true ∧
+     LoopSkel.before (.call "pendingFunctors_.push_back" "cb") (.call "wakeup" "") (LoopSkel.flat Gen.LoopSkel.queueInLoop) = true ∧
+     LoopSkel.before (.call "unlock" "mutex_") (.call "wakeup" "") (LoopSkel.flat Gen.LoopSkel.queueInLoop) = true ∧
+     LoopSkel.outsideLock "mutex_" (.call "wakeup" "") (LoopSkel.flat Gen.LoopSkel.queueInLoop) = true) ∧
+    -- (b)
+    LoopSkel.before (.store "quit_" "true") (.call "wakeup" "") (LoopSkel.flat Gen.LoopSkel.quit) = true ∧
+    -- (c)
+    (LoopSkel.inOrder [.store "callingPendingFunctors_" "true", .call "functors.swap" "pendingFunctors_", .call "functor" "",
+                       .call "functors.clear" "", .store "callingPendingFunctors_" "false"]
+       (LoopSkel.flat Gen.LoopSkel.doPendingFunctors) = true ∧
+     LoopSkel.insideLock "mutex_" (.call "functors.swap" "pendingFunctors_") (LoopSkel.flat Gen.LoopSkel.doPendingFunctors) = true ∧
+     LoopSkel.outsideLock "mutex_" (.call "functor" "") (LoopSkel.flat Gen.LoopSkel.doPendingFunctors) = true ∧
+     LoopSkel.outsideLock "mutex_" (.call "functors.clear" "") (LoopSkel.flat Gen.LoopSkel.doPendingFunctors) = true ∧
+     (LoopSkel.flat Gen.LoopSkel.doPendingFunctors).getLast? = some (.store "callingPendingFunctors_" "false")) ∧
+    -- (d)
+    (LoopSkel.inOrder [.call "activeChannels_.clear" "", .call "poller_.poll" "kPollTimeMs, &activeChannels_",
+                       .store "eventHandling_" "true", .call "currentActiveChannel_.handleEvent" "pollReturnTime_",
+                       .store "eventHandling_" "false", .call "doPendingFunctors" ""]
+       (LoopSkel.flat (LoopSkel.loopBody .whileDo "!quit_" Gen.LoopSkel.loopFn)) = true ∧
+     LoopSkel.loopBody .doWhile "{call queueSize()} > 0" Gen.LoopSkel.loopFn = [.act (.call "doPendingFunctors" "")]) ∧
+    (LoopSkel.onlyUnder "isInLoopThread()" (.call "cb" "") Gen.LoopSkel.runInLoop = true ∧
+     LoopSkel.onlyUnless "isInLoopThread()" (.call "queueInLoop" "cb") Gen.LoopSkel.runInLoop = true) :=
+  ⟨LoopSkel.skeletons_agree_loop,
+   ⟨LoopSkel.queueInLoop_append_locked_then_wakeup.1, LoopSkel.queueInLoop_append_locked_then_wakeup.2.1,
+    LoopSkel.queueInLoop_append_locked_then_wakeup.2.2.1, LoopSkel.queueInLoop_append_locked_then_wakeup.2.2.2.1⟩,
+   LoopSkel.quit_store_precedes_wakeup.1,
+   ⟨LoopSkel.doPendingFunctors_order.1, LoopSkel.doPendingFunctors_order.2.1, LoopSkel.doPendingFunctors_order.2.2.1,
+    LoopSkel.doPendingFunctors_order.2.2.2.2.2.2.1, LoopSkel.doPendingFunctors_order.2.2.2.2.2.2.2.2⟩,
+   ⟨LoopSkel.loop_iteration_order.2.1, LoopSkel.loop_iteration_order.2.2.2.2.2.1⟩,
+   LoopSkel.runInLoop_inline_or_queue⟩
 
 end MuduoVerif.C04
